@@ -14,6 +14,11 @@
 (***************************************************************************)
 EXTENDS DocRender
 
+(* The code as found before fix F27 (two attached comments after an operator were not separated by a blank, unlike two
+   detached ones: `a./* c1 *//* c2 */b` broken at the dots came back as `./* c1 */ /* c2 */b` on the next run).  Empty in
+   every check; bin/selftest overrides it to show that InvConvergence of DotChainMC is able to fail. *)
+AsFoundChain == {}
+
 C0 == [items |-> <<>>, canAttach |-> FALSE, seenOp |-> FALSE, nOps |-> 0, hasCmt |-> FALSE]
 
 LastIsCmt(st) == st.items # <<>> /\ st.items[Len(st.items)].t \in {"att", "cmt"}
@@ -40,7 +45,8 @@ PStep(p, it) ==
     [] it.t = "cmt"  -> [p EXCEPT !.docs = IF p.leading THEN Append(@, it.doc)
                                            ELSE AddLast(@, IF p.spaceAfter THEN Cat(SPACE, it.doc) ELSE it.doc),
                                   !.leading = FALSE, !.spaceAfter = TRUE]
-    [] it.t = "att"  -> [p EXCEPT !.docs = IF @ = <<>> THEN @ ELSE AddLast(@, IF p.spaceAfter THEN Cat(SPACE, it.doc) ELSE it.doc)]
+    [] it.t = "att"  -> [p EXCEPT !.docs = IF @ = <<>> THEN @ ELSE AddLast(@, IF p.spaceAfter THEN Cat(SPACE, it.doc) ELSE it.doc),
+                                  !.spaceAfter = IF "F27" \in AsFoundChain THEN @ ELSE TRUE]     \* as found: left as it was
     [] it.t = "lb"   -> [p EXCEPT !.docs = Append(@, HL), !.hasBreak = TRUE, !.leading = TRUE]
 RECURSIVE PRun(_, _, _)
 PRun(p, items, i) == IF i > Len(items) THEN p ELSE PRun(PStep(p, items[i]), items, i + 1)
